@@ -148,7 +148,9 @@ func BytesToFloat64(b []byte) float64 {
 func Float64ToOrderedBytes(f float64) []byte {
 	bs := make([]byte, 8)
 	bits := math.Float64bits(f)
-	if f >= 0 {
+	// Decide on the sign bit, not on f >= 0: -0.0 >= 0 is true, which mapped -0.0 to
+	// all-zero bytes (below every negative number, decoding to NaN).
+	if bits&0x8000000000000000 == 0 {
 		bits ^= 0x8000000000000000
 	} else {
 		bits ^= 0xFFFFFFFFFFFFFFFF
